@@ -834,7 +834,9 @@ func decodeDebLike(o *pkgObs, controlTgz, dataTar []byte, dataKind string) error
 		case "conffiles":
 			o.HasConffiles = true
 			o.Conffiles = splitLines(cdata[e.Path])
+			o.Raw["conffiles"] = cdata[e.Path]
 		case "md5sums":
+			o.Raw["md5sums"] = cdata[e.Path]
 			for _, l := range splitLines(cdata[e.Path]) {
 				p := strings.SplitN(l, "  ", 2)
 				if len(p) == 2 {
